@@ -48,9 +48,9 @@ func init() {
 	}
 	props["C15"] = &propCfg{
 		ID: "C15", Harness: "modfs",
-		Quick:    tierCfg{Runs: 40000, Procs: 8, WallS: 600},
-		Thorough: tierCfg{Runs: 6000000, Procs: 16, Seeds: 3, WallS: 3300},
-		Rule: "one evaluation = one random import digraph on <= 5 modules + main (acyclic by default, any edge incl. self-imports and cycles in a quarter of the runs; nested names 库-丁 -> 库/丁.zn, 库-深-戊 -> 库/深/戊.zn; all-or-selected import lists; library imports 《@JSON》 from several modules; missing module / missing library; a module missing, replaced by a directory or not UTF-8) written to the simulated disk and run through the real LoadFile finder; module bodies display a marker and define functions/types that call siblings of their own module or imported functions; main calls what it imported, may assign to an imported name or call a non-imported one. A quarter of the runs also inject stat/open/read faults; import-all order is a tape decision. Oracle: executable loader model (DFS, loading/loaded sets): marker trace (each body once, before its importer's statements), call results, result, or the first error class (60 missing, 63 cycle, 64 library, 44 assign, 42 not imported); a faulted load may fail with any error but may not complete with a different trace. distinct_nontrivial = distinct canonical graph shapes (imports with list sizes, call edges, damage, enabled faults).",
+		Quick:    tierCfg{Runs: 40000, Procs: 8, WallS: 600, Params: "enum=3"},
+		Thorough: tierCfg{Runs: 6000000, Procs: 16, Seeds: 3, WallS: 3300, Params: "enum=4"},
+		Rule: "the first runs of every seed ENUMERATE all import digraphs (self-imports included) among 1, 2 and 3 modules (530 graphs; quick) resp. 1-4 modules (66,066 graphs; thorough), everything else about those scenarios (main's imports, selective lists, call edges, damage, faults) drawn from the tape; the remaining runs: one evaluation = one random import digraph on <= 5 modules + main (acyclic by default, any edge incl. self-imports and cycles in a quarter of the runs; nested names 库-丁 -> 库/丁.zn, 库-深-戊 -> 库/深/戊.zn; all-or-selected import lists; library imports 《@JSON》 from several modules; missing module / missing library; a module missing, replaced by a directory or not UTF-8) written to the simulated disk and run through the real LoadFile finder; module bodies display a marker and define functions/types that call siblings of their own module or imported functions; main calls what it imported, may assign to an imported name or call a non-imported one. A quarter of the runs also inject stat/open/read faults; import-all order is a tape decision. Oracle: executable loader model (DFS, loading/loaded sets): marker trace (each body once, before its importer's statements), call results, result, or the first error class (60 missing, 63 cycle, 64 library, 44 assign, 42 not imported); a faulted load may fail with any error but may not complete with a different trace. distinct_nontrivial = distinct canonical graph shapes (imports with list sizes, call edges, damage, enabled faults).",
 		Assume: []string{
 			"a second import of the same module inside ONE importer is not generated (the implementation rejects the duplicate declaration with error 43, which the property does not rule on)",
 			"redeclaring an imported name with 令 in the importer's body is shadowing, not generated",
